@@ -52,9 +52,35 @@ EX = [
     ('dictout', ">>> T({k}, {{'a': 1}})"),
     ('tuple', ">>> T({k}, 1), 2"),
     ('prstderr', ">>> import sys; print(T({k}, 'e'), file=sys.stderr)"),
+    # prints, then raises its expected exception (the standard module ignores the output of a raising example)
+    ('print_raise', ">>> PX({k})"),
+    ('print_raise_fn', ">>> def b{k}():\n...     print('in b'); raise KeyError(T({k}, 'k'))\n>>> b{k}()"),
+    # a bare '...' as the first continuation line of an unbalanced statement
+    ('mlit_bare', ">>> print([T({k}, 1),\n...\n...  2])"),
+    ('triple_bare', ">>> print(T({k}, '''a\n...\n... b'''))"),
+    ('call_bare_term', ">>> print(T({k},\n...\n...    7))\n..."),
+    # several options in one directive comment, comma and space separated
+    ('dir_comma', ">>> print(T({k}, list(range(20))), 'a  b') # doctest: +ELLIPSIS, +NORMALIZE_WHITESPACE"),
+    ('dir_space', ">>> print(T({k}, list(range(20))), 'a  b') # doctest: +ELLIPSIS +NORMALIZE_WHITESPACE"),
+    ('oneline_for', ">>> for i in range(2): T({k}, i + 1)"),
+    ('oneline_if', ">>> if True: T({k}, 6)"),
+    ('underscore', ">>> T({k}, 4)\n>>> _ + 1"),
+    ('echo_none_then_value', ">>> T({k}); T({k}, 8)"),
+    ('two_values', ">>> T({k}, 1); T({k}, 2)"),
+    ('echo_str_escape', ">>> T({k}, 'it\\'s')"),
+    ('bytes', ">>> T({k}, b'ab')"),
+    ('float', ">>> T({k}, 1) / 3"),
+    ('print_multi', ">>> print(T({k}, 'x'), 1, sep='-')"),
+    ('while', ">>> n{k} = 2\n>>> while n{k}:\n...     n{k} -= 1\n...     P({k})"),
+    ('nested_def', ">>> def o{k}():\n...     def i():\n...         return T({k}, 9)\n...     return i()\n>>> o{k}()"),
+    ('deco', ">>> import functools\n>>> @functools.lru_cache(None)\n... def c{k}():\n...     return T({k}, 3)\n>>> c{k}()"),
+    ('exc_chain', ">>> raise ValueError(T({k}, 'a')) from None"),
+    ('exc_custom', ">>> class E{k}(Exception):\n...     pass\n>>> raise E{k}(T({k}, 'cu'))"),
+    ('exc_nomsg', ">>> raise RuntimeError if T({k}, 1) else None"),
+    ('exc_multiline_msg', ">>> raise ValueError(T({k}, 'l1\\nl2'))"),
 ]
 EXD = dict(EX)
-SPECIAL_WANT = {'ell': '[0, 1, ..., 19]', 'skipd': 'nope', 'nws': 'a b',
+SPECIAL_WANT = {'dir_comma': '[0, ..., 19] a b', 'dir_space': '[0, ..., 19] a b', 'ell': '[0, 1, ..., 19]', 'skipd': 'nope', 'nws': 'a b',
                 'ied': 'Traceback (most recent call last):\nValueError: other',
                 'raise_stack': 'Traceback (most recent call last):\n  File "<stdin>", line 1, in <module>\nKeyError: \'kk\''}
 SEPS = ['none', 'blank', 'prose']
@@ -141,6 +167,18 @@ def build(indent, events):
     return text
 
 
+def failing_kind(events, fp):
+    """template kind of the example the failing part belongs to (located through its source lines)"""
+    lines = [l for l in (getattr(fp, 'exec_lines', None) or []) if l.strip()]
+    for probe in reversed(lines):
+        for i, (k, sep) in enumerate(events, 1):
+            chunk = EXD[k].replace('{k}', str(i)).replace('{{', '{').replace('}}', '}')
+            body = [l[4:] if l[:4] in ('>>> ', '... ') else l[3:] for l in chunk.split('\n')]
+            if probe in body:
+                return k
+    return 'unknown'
+
+
 class CompatSpec(Spec):
     prop = 'C20'
     title = 'standard-syntax doctests: stdlib doctest vs xdoctest'
@@ -188,6 +226,8 @@ class CompatSpec(Spec):
         if not ok:
             # outside the domain: the standard module itself does not accept the text
             return {'atoms': [], 'outcome': 'outside-domain', 'nontrivial': 0, 'unspec': 1, 'case': case}
+        import builtins
+        builtins.__dict__.pop('_', None)      # left behind by the standard module's displayhook
         r = harness.run_doctest(text)
         atoms = []
         v = harness.verdict_of(r.summary)
@@ -197,12 +237,17 @@ class CompatSpec(Spec):
         elif v == 'failed':
             fp = r.doctest.failed_part
             last = fp.exec_lines[-1] if hasattr(fp, 'exec_lines') and fp.exec_lines else ''
+            kind = failing_kind(events, fp)
             if r.exc_type == 'GotWantException' and re.match(r'^P\(\d+\) or 7$', last):
                 sig = 'compat:fails:example-prints-and-echoes-a-value'
             elif r.exc_type == 'GotWantException' and re.match(r'^T\(\d+, 5\); y = 2$', last):
                 sig = 'compat:fails:semicolon-line-whose-non-final-statement-echoes'
+            elif kind in ('oneline_for', 'oneline_if') and r.exc_type == 'GotWantException':
+                sig = 'compat:fails:one-line-compound-statement-echoes-a-value'
+            elif kind == 'underscore' and last.startswith('_'):
+                sig = 'compat:fails:underscore-variable-not-bound-to-last-value'
             else:
-                sig = 'compat:fails:' + str(r.exc_type)
+                sig = 'compat:fails:%s:%s' % (kind, r.exc_type)
             atoms.append({'sig': sig, 'msg': 'passes under the standard doctest module, xdoctest: %s %s at %r' % (
                 r.exc_type, str(r.exc)[:200], last)})
         elif v == 'skipped':
